@@ -79,10 +79,13 @@ Lemma pgz_reserve_src : forall (P : pg_doc -> Prop), (forall p, P p -> P (fst (p
   forall fuel h top c, P (pgc_src c) -> P (pgc_src (pg_reserve fuel h top c)).
 Proof. exact pgz_reserve_src_sec. Qed.
 
+Local Opaque pg_reserve.
+
 Lemma pgz_copied_src : forall (P : pg_doc -> Prop), (forall p, P p -> P (fst (pg_all p))) ->
   forall src dst fid, P src -> P (fst (fst (fst (pg_copied src dst fid)))).
 Proof.
-  intros P HP src dst fid H. rewrite pg_copied_src. unfold pg_cres. apply pgz_reserve_src; [exact HP|exact H].
+  intros P HP src dst fid H. rewrite pg_copied_src. unfold pg_cres.
+  exact (pgz_reserve_src P HP 200 (PvRef fid) true (pg_c0 src dst) H).
 Qed.
 
 (* ------------------------------------------------------------------ (Z2) the destination *)
@@ -184,4 +187,91 @@ Proof.
   - rewrite (pgz_rename_dict_get ss m d pgk_Kids Hnd), Hk. reflexivity.
   - rewrite (pgz_rename_dict_get ss m d pgk_Type Hnd).
     destruct (pg_dget d pgk_Type) as [| z | s | i | l | dd]; cbn [pg_is_null pg_rename]; try exact I; [exact Ht|contradiction].
+Qed.
+
+(* ------------------------------------------------------------------ (Z3) what a successful copy returns *)
+Lemma pgz_head_top_new : forall og c, pg_omap_find (pgc_omap c) og = None -> pg_memN og (pgc_visiting c) = false ->
+  snd (pg_reserve_head (PvRef og) true c) = true.
+Proof.
+  intros og c Ho Hm. unfold pg_reserve_head. rewrite Hm. cbn [pgc_omap pgc_src pgc_dst pgc_visiting pgc_tocopy pgc_err].
+  rewrite Ho. destruct (pg_is_stream (pd_store (pgc_src c)) (PvRef og)); reflexivity.
+Qed.
+
+(* the copied object ends on to_copy unless it had been copied before *)
+Local Transparent pg_reserve.
+Lemma pgz_top_tocopy : forall src dst fid l, pd_all src <> [] ->
+  pg_omap_find (pgc_omap (pg_cres src dst fid)) fid = Some l ->
+  In fid (pgc_tocopy (pg_cres src dst fid)) \/ pg_omap_find (pd_omap dst) fid = Some l.
+Proof.
+  intros src dst fid l Hall. unfold pg_cres. change 200%nat with (S 199). cbn [pg_reserve].
+  change (pgc_err (pg_c0 src dst)) with (@None pg_err). cbv iota.
+  rewrite (pgx_type_is src Hall (pg_c0 src dst) (PvRef fid) pgk_Pages eq_refl). cbv iota beta.
+  change (pgc_err (pg_c0 src dst)) with (@None pg_err). cbv iota.
+  destruct (pg_is_dict_of_type (pd_store src) (PvRef fid) pgk_Pages); [intros H; right; exact H|].
+  destruct (pg_is_selfref (pd_store (pgc_src (pg_c0 src dst))) (PvRef fid)); [intros H; right; exact H|].
+  assert (Hgo : forall c2, pgc_tocopy c2 = [fid] ->
+            In fid (pgc_tocopy (match pgc_err (pg_reserve_kids (fun x c => pg_reserve 199 x false c) (PvRef fid) c2) with
+                                | Some _ => pg_reserve_kids (fun x c => pg_reserve 199 x false c) (PvRef fid) c2
+                                | None => pg_reserve_done (PvRef fid) (pg_reserve_kids (fun x c => pg_reserve 199 x false c) (PvRef fid) c2)
+                                end))).
+  { intros c2 Ht.
+    destruct (pg_cR_kids (fun x c => pg_reserve 199 x false c) (PvRef fid) c2 (fun x c0 => pg_cR_reserve 199 x false c0))
+      as (_ & _ & _ & more & T & _).
+    destruct (pgc_err _); cbn [pg_reserve_done pgc_tocopy]; rewrite T, Ht; apply in_or_app; right; left; reflexivity. }
+  destruct (pgx_head_spec src Hall fid true (pg_c0 src dst) eq_refl eq_refl) as [(l0 & El & _ & E)|[(l0 & El & E)|[(El & E)|(El & _ & E)]]].
+  - rewrite E. cbn [pgc_err pg_c0 negb]. intros _. left. apply Hgo. reflexivity.
+  - rewrite E. cbn [pgc_err pg_c0 negb pgc_omap]. intros H. right. exact H.
+  - rewrite E. cbn [pgc_err pg_c0 negb]. intros _. left. apply Hgo. reflexivity.
+  - pose proof (pgz_head_top_new fid (pg_c0 src dst) El eq_refl) as Hn. rewrite E in Hn. discriminate.
+Qed.
+Local Opaque pg_reserve.
+
+Lemma pgz_copied_result : forall src dst fid l,
+  pd_all src <> [] -> pg_omap_wf dst ->
+  let '(src', dst', e, r) := pg_copied src dst fid in
+  e = None -> r = PvRef l ->
+  (exists v, pg_lookup (pd_store src) fid = Some (PcObj v) /\
+             pg_lookup (pd_store dst') l = Some (PcObj (pg_rename (pd_store src) (pd_omap dst') v)) /\
+             (pg_lookup (pd_store dst) l = None \/ pg_is_null (pd_store dst) (PvRef l) = true)) \/
+  (exists d x k, pg_lookup (pd_store src) fid = Some (PcStream d x k)) \/
+  (pg_omap_find (pd_omap dst) fid = Some l /\ pg_lookup (pd_store dst') l = pg_lookup (pd_store dst) l /\
+   pg_lookup (pd_store dst) l <> None).
+Proof.
+  intros src dst fid l Hall [Wex Winj].
+  assert (W : pg_cW (pg_cres src dst fid)).
+  { apply pg_cW_reserve; [|reflexivity]. unfold pg_cW, pg_c0. cbn [pgc_dst pgc_omap pgc_tocopy].
+    split; [exact Wex|split; [exact Winj|split; [intros og []|constructor]]]. }
+  pose proof (pg_cR_reserve 200 (PvRef fid) true (pg_c0 src dst)) as (M & S & D & more & T & NN).
+  pose proof (pgz_top_tocopy src dst fid l Hall) as Htop.
+  fold (pg_cres src dst fid) in *.
+  unfold pg_copied. fold (pg_c0 src dst). fold (pg_cres src dst fid).
+  set (c := pg_cres src dst fid) in *.
+  cbn [pg_c0 pgc_src pgc_dst pgc_omap pgc_tocopy] in M, S, D, T, NN. rewrite app_nil_r in T. specialize (S Hall).
+  destruct W as (WA & WB & WC & WD).
+  destruct (pgc_err c) eqn:Ee; [intros H; discriminate|]. rewrite S.
+  destruct (fold_left (pg_replace_step src (pgc_omap c)) (rev' (pgc_tocopy c)) (pgc_dst c, pd_reg dst, None)) as [[ds reg] e] eqn:Ef.
+  destruct e as [x|]; [intros H; discriminate|].
+  assert (HL1 : NoDup (rev' (pgc_tocopy c))) by (rewrite rev'_rev; apply NoDup_rev, WD).
+  assert (HL2 : forall og, In og (rev' (pgc_tocopy c)) -> In og (pgc_tocopy c)).
+  { intros og H. rewrite rev'_rev in H. apply in_rev in H. exact H. }
+  assert (HL3 : forall og, In og (pgc_tocopy c) -> In og (rev' (pgc_tocopy c))).
+  { intros og H. rewrite rev'_rev. apply in_rev. rewrite rev_involutive. exact H. }
+  assert (HL4 : forall og, In og (rev' (pgc_tocopy c)) -> pg_omap_find (pgc_omap c) og <> None) by (intros og H; apply WC, HL2, H).
+  pose proof (pgx_replace_fold src (pgc_omap c) _ _ _ _ _ HL1 HL4 WB Ef) as Hrep.
+  destruct (pg_replace_fold src (pgc_omap c) _ _ _ _ _ HL1 HL4 WB Ef) as [_ H2].
+  destruct (pg_omap_find (pgc_omap c) fid) as [l0|] eqn:Efid; intros _ Hr; [|discriminate].
+  injection Hr as ->. cbn [pd_store pd_omap pd_with_reg pd_with_omap pd_with_store].
+  destruct (in_dec N.eq_dec fid (pgc_tocopy c)) as [Hin|Hnin].
+  - specialize (Hrep fid l (HL3 fid Hin) Efid).
+    assert (Hnull : pg_is_null (pd_store dst) (PvRef l) = true).
+    { rewrite T in Hin. destruct (NN fid Hin) as (l' & El' & Hn). rewrite Efid in El'. injection El' as <-. exact Hn. }
+    destruct (pg_lookup (pd_store src) fid) as [[v|d data k]|].
+    + left. exists v. split; [reflexivity|split; [exact Hrep|right; exact Hnull]].
+    + right; left. exists d, data, k. reflexivity.
+    + destruct Hrep.
+  - destruct (Htop Efid) as [Hin|Hold]; [contradiction|].
+    right; right. split; [exact Hold|].
+    assert (Hex : pg_lookup (pd_store dst) l <> None) by (eapply Wex; exact Hold).
+    split; [|exact Hex]. rewrite <- (D l Hex). apply H2.
+    intros og Hog E. apply Hnin. rewrite <- (WB og fid l E Efid). apply HL2, Hog.
 Qed.
